@@ -35,6 +35,8 @@ TEXT = {
  "C11": ("After every log operation the real log's last index and size are compared with the log the operations denote; discards must not drop committed entries; commit and applied index never move "
          "backwards within an incarnation; no snapshot older than the applied index is restored; an installed snapshot equals, byte for byte (hash, size, label), a snapshot some node produced. "
          "Scenarios as C10 with stale, duplicated and reordered chunks.", "6 C11"),
+ "C17": ("Time-driven adversary on an automatic network whose per-message delay the harness bounds below election timeout - lease duration, one virtual clock, free timers: partitions (both / one direction, "
+         "non-voters optionally left connected), leader changes, crashes, writes and lease reads at random instants; TLC evaluates the freshness clause on every successful lease read.", "6 C17"),
  "C12": ("LogStore.tla models the log file at system-call grain (two writes per record, fsync, ftruncate, temp file + rename) with a crash between any two calls and inside a write; "
          "TLC checks Recover/InMemoryIsReturned/FileDenotesLog exhaustively. On the code, operation programs run through the public Log API in a driver process that is killed by a real "
          "SIGKILL on entry to every storage system call (strace fault injection), plus byte prefixes of interrupted appends; every image is reopened, extended and reopened again and the "
